@@ -1,10 +1,10 @@
 #!/bin/bash
 # usage: eval_agent.sh <ID> [props...]  -- runs checks against agent patches A and B
 ID=$1; shift
-PROPS="$@"; [ -z "$PROPS" ] && PROPS=$ID
-for v in A B; do
+PROPS="$@"; [ -z "$PROPS" ] && PROPS=${ID#S}
+for v in A B C D; do
   P=/tmp/agents/$ID-out/$v/patch.diff
-  [ -f $P ] || { echo "$ID/$v: no patch"; continue; }
+  [ -f $P ] || continue
   echo "=== $ID/$v  ($(grep -c '^[-+][^-+]' $P) changed lines; files: $(grep '^+++ ' $P | sed 's/+++ b\///' | tr '\n' ' '))"
   /verif/bin/try_mutant.sh $P $PROPS 2>&1 | grep -E '^C[0-9]+ \[|^  rule|PATCH' | cut -c1-260 | awk '/^C[0-9]+ \[/{print; n=0; next} {n++; if(n<=2) print}'
 done
